@@ -1072,3 +1072,39 @@ def r199(ctx, rep, m, members, rule="R19.9"):
             elif member_of(key):
                 n2 += 1
     rep.ok(rule, f"{n2} option/constant look-ups use the member or its value as key")
+
+
+# ---------------------------------------------------------------------------
+def r1911(ctx, rep, rule="R19.11"):
+    """both completion / validation functions run before minimize can return:
+    every return of minimize (the early exits included) is dominated by the
+    calls of _set_default_options and _set_default_constants"""
+    m = ctx.func(T.MINIMIZE)
+    cfg = ctx.cfg(m)
+    rets = [n for n in cfg.nodes if n.kind == "stmt" and isinstance(n.ast, ast.Return)]
+    if not rets:
+        raise AnalysisError("minimize has no return statement")
+    for q in (OPT_FUNC, CST_FUNC):
+        calls = [cfg.node_containing(ev.node) for ev in ctx.events(m) if ev.kind == "call" and any(t.kind == "repo" and t.name == q for t in ev.targets)]
+        calls = [c for c in calls if c is not None]
+        name = q.split(":")[-1]
+        if not calls:
+            rep.bad(rule, f"{name} called by minimize")
+            rep.finding(rule, m, name, m.node.lineno, f"minimize no longer calls {name}: the documented restrictions are not enforced")
+            continue
+        for r in rets:
+            desc = f"minimize:{r.line} return dominated by {name}()"
+            if any(cfg.dominates(c, r.id) for c in calls):
+                rep.ok(rule, desc)
+            else:
+                rep.bad(rule, desc)
+                rep.finding(rule, m, norm(r.ast)[:80], r.line, f"this exit of minimize can be reached without {name}() having run: invalid or unknown settings are accepted silently on that path (no ValueError, no RuntimeWarning)")
+
+
+_old_run19 = run
+
+
+def run(ctx, rep):  # noqa: F811
+    _old_run19(ctx, rep)
+    rep.rule("R19.11", "every return of minimize is dominated by the validation/completion of the options and of the constants")
+    r1911(ctx, rep)
